@@ -304,6 +304,44 @@ def is_ids_field(n):
     return n.k == 'MemberExpr' and n.get('record') == IDS_RECORD and n.get('member') in IDS_FIELDS
 
 
+_WT = {}
+
+
+def writes_through_param(prog, callee, i, depth=0):
+    """does the function store through memory derived from its parameter i (whatever its qualifiers)?"""
+    key = (callee.key, i)
+    if key in _WT:
+        return _WT[key]
+    _WT[key] = False
+    if i >= len(callee.params) or depth > 4:
+        return False
+    pt = PtrTaint(callee, lambda n: False, {callee.params[i]['id']})
+    res = bool(pt.stores())
+    if not res:
+        for call, j, a in pt.pointer_args():
+            t = prog.func(call.get('callee'), callee.tu) if call.get('callee') else None
+            if t is not None and writes_through_param(prog, t, j, depth + 1):
+                res = True
+            elif t is None:
+                ptypes = call.get('calleeParamTypes') or []
+                if j < len(ptypes) and not pointee_const(ptypes[j]):
+                    res = True
+    _WT[key] = res
+    return res
+
+
+def caller_data(n):
+    """expressions that ARE the caller's data: the stored path/argv/envp, and the environment as libc hands it
+    out (getenv results point into the strings of environ, which execv passes on)"""
+    if is_ids_field(n):
+        return True
+    if n.k == 'CallExpr' and n.get('callee') in ('getenv', 'secure_getenv', '__secure_getenv'):
+        return True
+    if n.k == 'DeclRefExpr' and n['ref'].get('name') in ('environ', '__environ') and n['ref'].get('kind') == 'var':
+        return True
+    return False
+
+
 def check_readonly(ctx, prog, cg, roots):
     """E7: every use of the stored pointers is a read."""
     chk = ctx.chk
@@ -317,7 +355,7 @@ def check_readonly(ctx, prog, cg, roots):
         if f.name in INTERPOSERS or f.name in STORE.values() or \
                 f.name == 'snoopy_entrypoint_execve_wrapper_init':
             param_ids = {p['id'] for p in f.params}
-        pt = PtrTaint(f, is_ids_field, param_ids)
+        pt = PtrTaint(f, caller_data, param_ids)
         for n in pt.stores():
             nuses += 1
             viol.append((f, n, 'store through the caller\'s data: %s' % render(n)))
@@ -342,6 +380,14 @@ def check_readonly(ctx, prog, cg, roots):
             if not pointee_const(pty):
                 viol.append((f, call, 'caller data passed as writable pointer (%s %s) to %s' % (
                     a.get('ct'), render(a), render(call.ch[0]))))
+            else:
+                # a const-qualified parameter is no guarantee: the callee may store through a pointer it derived
+                # from it (strchr and friends return a plain char *)
+                callee = prog.func(call.get('callee'), f.tu) if call.get('callee') else None
+                if callee is not None and writes_through_param(prog, callee, i):
+                    viol.append((f, call, 'caller data passed to %s, which stores through its parameter %d although it is '
+                                          'declared const (the pointer is laundered through strchr/strstr)' % (
+                                              callee.name, i)))
         for n in f.body.walk():
             if is_ids_field(n):
                 nuses += 1
@@ -388,3 +434,38 @@ def check_readonly(ctx, prog, cg, roots):
 def pointee_const(ct):
     from engine.statics import _pointee_const
     return _pointee_const(ct)
+
+
+def environment_strings_untouched(ctx, prog, cg, rule):
+    """(shared with C16) no store through a pointer into the environment strings: results of getenv() and
+    the vector environ are only read, also by callees that take them as const"""
+    chk = ctx.chk
+    reach = common.checked_reach(cg, prog)
+    env_only = lambda n: (n.k == 'CallExpr' and n.get('callee') in ('getenv', 'secure_getenv', '__secure_getenv')) or \
+        (n.k == 'DeclRefExpr' and n['ref'].get('name') in ('environ', '__environ') and n['ref'].get('kind') == 'var')
+    bad = []
+    nuse = 0
+    for key, (f, _, _) in sorted(reach.items(), key=lambda kv: str(kv[0])):
+        if not any(env_only(n) for n in f.body.walk()):
+            continue
+        pt = PtrTaint(f, env_only, set())
+        for n in pt.stores():
+            bad.append((f, n, 'store into an environment string: %s' % render(n)[:60]))
+        for call, i, a in pt.pointer_args():
+            nuse += 1
+            np = call.get('calleeNumParams')
+            if np is not None and i >= np and call.get('calleeVariadic'):
+                continue
+            ptypes = call.get('calleeParamTypes') or []
+            pty = ptypes[i] if i < len(ptypes) else a.get('ct', '')
+            callee = prog.func(call.get('callee'), f.tu) if call.get('callee') else None
+            if not pointee_const(pty):
+                bad.append((f, call, 'an environment string is passed as writable pointer to %s' % render(call.ch[0])))
+            elif callee is not None and writes_through_param(prog, callee, i):
+                bad.append((f, call, '%s stores through the environment string it is given (declared const, laundered '
+                                     'through strchr/strstr)' % callee.name))
+    for f, n, msg in bad:
+        chk.ob(rule, 'environment-string-modified[%s:%s]' % (f.name, render(n)[:50]), False, n.where(), f.name,
+               msg + ': the variable stays changed in the calling process after the call and is what the new program receives')
+    chk.ob(rule, 'environment-strings-only-read', not bad, '', '', '%d stores into environment strings' % len(bad),
+           how='%d uses of getenv()/environ values inspected' % nuse)
